@@ -189,7 +189,9 @@ impl ExprReply {
             }
             match *expr {
                 Expr::Unit { ref name } => parts.push(ExprParts::Unit { name: name.clone() }),
-                Expr::Quote { ref string } => literal!(format!("'{}'", string)),
+                Expr::Quote { ref string } => {
+                    literal!(format!("'{}'", crate::ast::escape_quote(string)))
+                }
                 Expr::Const { ref value } => {
                     let (_exact, val) = value.to_string(10, Digits::Default);
                     literal!(val)
